@@ -93,7 +93,7 @@ def scatter(spec, rng, nmod=None, nsplit=None):
                             ["xor", a, ["sig", rng.choice(readable)]]])
             parts.append([lo, hi, dom, e, rng.randrange(nmod)])
         if parts:
-            splits.append({"w": w, "init": rng.getrandbits(w), "parts": parts})
+            splits.append({"w": w, "init": rng.getrandbits(w), "parts": parts, "signed": rng.random() < 0.4})
     return {"spec": spec.d, "tree": tree, "anon": anon, "place": place, "splits": splits}
 
 
@@ -144,7 +144,8 @@ def build(design):
         d.outs.append((f"out{i}", o, i))
     d.split_sigs = []
     for k, sp in enumerate(design["splits"]):
-        sig = Signal(sp["w"], name=f"split{k}", init=sp["init"])
+        sgn = bool(sp.get("signed"))
+        sig = Signal(Shape(sp["w"], sgn), name=f"split{k}", init=norm(sp["init"], sp["w"], sgn))
         d.split_sigs.append(sig)
         for lo, hi, dom, e, mod in sp["parts"]:
             mods[mod].d[dom] += sig[lo:hi].eq(X.build(e, b0.sigs))
